@@ -233,8 +233,11 @@ func verifyRestart(t *testing.T, pr pRun, media *Media, fresh int) []map[string]
 		}
 		readAll()
 		// uploads accepted after the restart must not damage what survived
+		if fresh > 0 {
+			fresh = len(names) + 2 // enough to rotate blocks and to land other contents at old offsets
+		}
 		for i := 0; i < fresh; i++ {
-			k := names[(i*7+3)%len(names)]
+			k := names[(i*3+1)%len(names)]
 			w.log.SetCur("r1")
 			w.start(Step{Do: "start", P: "r1", Op: "Put", K: k})
 			w.sc.Settle()
